@@ -36,7 +36,7 @@ Definition decode_code (c : cfg) (code : pycode) (constants : list const) : res 
   let fl4 := flag_remove NESTED fl3 in
   let fn_flags := filter (fun f => flag_mem f fl4) FN_FLAGS in
   match (match fn_flags with
-         | [] => if negb (args_len a =? 0) then Err AssertionError else OK (None, fl4)
+         | [] => if negb (args_len a =? 0) then Err ValueError else OK (None, fl4)   (* raise, not assert: holds under python -O *)
          | [_; _] =>
              let docstring := match constants with
                               | KInner (IStr s) :: _ => Some s
